@@ -1,6 +1,6 @@
 """C16 - codecs and conversions: encoder/decoder table agreement, representation-independent rendering (static clauses)."""
 import re
-from .core import (builds_error, CheckError, find_match, arm_region, pat_str, strip_ref, origins, only_when, pat_paths,
+from .core import (family_bodies, builds_error, CheckError, find_match, arm_region, pat_str, strip_ref, origins, only_when, pat_paths,
                    Registry, op_local, bool_switches, fmt_templates)
 from .census import Census
 from . import c14_tables as T
@@ -366,6 +366,37 @@ def run(F, rep, tier):
             rep.viol('R16.7', 'json_decode|Number|as_i64', 'json_decode does not try Number::as_i64 before falling back to as_f64 (as_i64 calls: %d): negative integers beyond 2^53 come back rounded' % len(i64s), jb.loc(0))
     except (IndexError, CheckError) as e:
         rep.error('R16.7', 'json_decode not found: %s' % e)
+    # ---------------- R16.9
+    rep.rule('R16.9', 'format flags belong to one interpolation: parse_format_string creates a fresh MyFmtFlags inside the scanning loop (the '
+             'constructor call lies on a CFG cycle), so `F"{255 #x} {255}"` renders the second number in decimal; and a dict literal with a '
+             'repeated key keeps the LAST binding (HashMap::insert, as json_decode does), not the first (entry().or_insert)')
+    pfs = 'core::parse_format_string'
+    if F.has_fn(pfs):
+        pb9 = F.body(pfs)
+        news9 = [c for b_ in family_bodies(F, pfs) for c in b_.calls if c.target.endswith('MyFmtFlags::new')]
+        in_loop = [c for c in news9 if c.body.on_cycle(c.bb) or c.body.path != pfs]
+        if news9 and len(in_loop) == len(news9):
+            rep.ok('R16.9', 'parse_format_string flags', 'fresh MyFmtFlags per interpolation')
+        elif news9:
+            rep.viol('R16.9', pfs + '|flags-hoisted', 'parse_format_string creates its MyFmtFlags once, outside the loop over interpolations: base / pad / align flags of one `{...}` leak into the following ones', news9[0].loc())
+        else:
+            rep.note('R16.9: parse_format_string builds its flags without MyFmtFlags::new (idiom not recognised): not decided')
+    else:
+        rep.error('R16.9', pfs + ' missing')
+    ev9 = F.body('eval::evaluate')
+    me9 = find_match(F, 'eval::evaluate', r'core::Expr\b', min_arms=30)
+    dreg = set()
+    for i9, a9 in enumerate(me9['arms']):
+        if any(p_ == 'core::Expr::Dict' for p_ in pat_paths(a9['pat'])):
+            dreg |= arm_region(F, ev9, me9, i9)
+    ins9 = [c for c in ev9.calls_in(dreg) if c.target.rsplit('::', 1)[-1] == 'insert' and 'HashMap' in c.target]
+    first9 = [c for c in ev9.calls_in(dreg) if c.target.rsplit('::', 1)[-1] in ('or_insert', 'or_insert_with', 'try_insert', 'or_default')]
+    if first9:
+        rep.viol('R16.9', 'eval::evaluate|Dict|first-binding-wins', 'a dict literal keeps the first binding of a repeated key (%s): `{"a": 1, "a": 2}` evaluates to {"a": 1} while json_decode of the same text gives {"a": 2}' % first9[0].target.rsplit('::', 1)[-1], first9[0].loc())
+    elif ins9:
+        rep.ok('R16.9', 'Expr::Dict', 'HashMap::insert: the last binding of a repeated key wins')
+    else:
+        rep.note('R16.9: Expr::Dict fills its map in an unrecognised way: not decided')
     # ---------------- R16.8
     rep.rule('R16.8', 'repr of a number lexes back: NNum::repr renders every component with the plain Display form (`{}` + suffix q / f / j, no '
              'flags, width or precision) - Debug / LowerExp switch floats to exponent notation, and `1e-7f` is a float followed by an identifier')
